@@ -6,7 +6,9 @@ package gnet
 
 import (
 	"net"
+	"reflect"
 	"sync"
+	"unsafe"
 )
 
 // VerifLB wraps one of gnet's load balancers over fake event loops whose
@@ -93,15 +95,39 @@ func (v *VerifLB) Iterate(k int) (visited []int, agree bool) {
 }
 
 // SetRRCounter sets the round-robin counter (no-op for the other policies).
+// The counter is reached through reflection so that the harness still builds (and can still
+// position the counter) when its integer type changes.
+func (v *VerifLB) rrCounterField() (reflect.Value, bool) {
+	rr, ok := v.lb.(*roundRobinLoadBalancer)
+	if !ok {
+		return reflect.Value{}, false
+	}
+	f := reflect.ValueOf(rr).Elem().FieldByName("nextIndex")
+	if !f.IsValid() || !f.CanAddr() {
+		return reflect.Value{}, false
+	}
+	return reflect.NewAt(f.Type(), unsafe.Pointer(f.UnsafeAddr())).Elem(), true
+}
+
 func (v *VerifLB) SetRRCounter(c uint64) {
-	if rr, ok := v.lb.(*roundRobinLoadBalancer); ok {
-		rr.nextIndex = c
+	if f, ok := v.rrCounterField(); ok {
+		switch f.Kind() {
+		case reflect.Uint, reflect.Uint8, reflect.Uint16, reflect.Uint32, reflect.Uint64, reflect.Uintptr:
+			f.SetUint(c) // a narrower field keeps the low bits
+		case reflect.Int, reflect.Int8, reflect.Int16, reflect.Int32, reflect.Int64:
+			f.SetInt(int64(c))
+		}
 	}
 }
 
 func (v *VerifLB) RRCounter() (uint64, bool) {
-	if rr, ok := v.lb.(*roundRobinLoadBalancer); ok {
-		return rr.nextIndex, true
+	if f, ok := v.rrCounterField(); ok {
+		switch f.Kind() {
+		case reflect.Uint, reflect.Uint8, reflect.Uint16, reflect.Uint32, reflect.Uint64, reflect.Uintptr:
+			return f.Uint(), true
+		case reflect.Int, reflect.Int8, reflect.Int16, reflect.Int32, reflect.Int64:
+			return uint64(f.Int()), true
+		}
 	}
 	return 0, false
 }
